@@ -583,6 +583,9 @@ def _munu_inv_stripe(ctx, stripe, mn=None):
         mn = [(rng.uniform(0, 360), 90.0), (rng.uniform(0, 360), -90.0), (NODE, 90.0), (0.0, -90.0)]
         mn += [_sphere_point(rng) for _ in range(ctx.n(6, 100))]
         mn += [(rng.uniform(0, 360), rng.choice([-1, 1]) * (90.0 - 10.0 ** rng.uniform(-9, 0))) for _ in range(ctx.n(3, 30))]
+        # micro- to milli-arcsecond offsets from the great circle itself (nu = +-1e-7.2 .. 1e-6.3 deg = 1.1e-9 .. 8.7e-9 rad): a rigid
+        # rotation keeps them; a tolerance that snaps small nu to 0 does not (seeded change C18-22)
+        mn += [(rng.uniform(0, 360), rng.choice([-1, 1]) * 10.0 ** rng.uniform(-7.2, -6.3)) for _ in range(ctx.n(2, 12))]
     mu = [p[0] for p in mn]
     nu = [p[1] for p in mn]
     ra, dec = _impl_m2r(stripe, mu, nu)
@@ -819,6 +822,25 @@ def _angles(ctx, only=None):
             except Exception as e:
                 ctx.violate('angles:history-exception', 'second conversion of a refilled array raises %r' % (e,),
                             {'stream': 'angles', 'lat': lat, 'p': [list(q) for q in a[:3].tolist()], 'history': 'refill'})
+        # two results held at once: converting a second catalogue of the same length must not change the array returned for
+        # the first one (results that share a recycled buffer; seeded change C18-23)
+        if len(p) >= 4:
+            h = len(p) // 2
+            try:
+                r1 = angles_to_x(a[:h].copy(), latitude=lat)
+                keep1 = np.array(r1)
+                angles_to_x(a[len(p) - h:].copy(), latitude=lat)
+                q1 = x_to_angles(x[:h].copy(), latitude=lat)
+                keepq = np.array(q1)
+                x_to_angles(x[len(p) - h:].copy(), latitude=lat)
+                ctx.count('angles:history:two-results-held')
+                if not (np.array_equal(np.asarray(r1), keep1, equal_nan=True) and np.array_equal(np.asarray(q1), keepq, equal_nan=True)):
+                    ctx.violate('angles:history:result-overwritten', 'the array returned by angles_to_x / x_to_angles(latitude=%s) changed when a second '
+                                'array of the same length was converted' % lat,
+                                {'stream': 'angles', 'lat': lat, 'p': [list(q) for q in a[:2].tolist()] + [list(q) for q in a[len(p) - h:len(p) - h + 2].tolist()], 'history': 'two-results'})
+            except Exception as e:
+                ctx.violate('angles:history-exception', 'conversion of a second array raises %r' % (e,),
+                            {'stream': 'angles', 'lat': lat, 'p': [list(q) for q in a[:3].tolist()], 'history': 'two-results'})
         # memory layout: the same (N, 2) / (N, 3) values as a column-major array, the transpose of a stacked (2, N) array,
         # a strided view of a wider array and a reversed view must convert like the C-contiguous array (seeded change C18-21)
         if len(p) >= 2:
